@@ -1,19 +1,40 @@
-(* Prop_C07.v — property C07: result order is deterministic (PARTIAL).
+(* Prop_C07.v — property C07: result order is deterministic.
    In the model an object is an association list in ARBITRARY order (Go's map iteration order is not
    represented at all): the evaluator and the specification reach the members of an object only
-   through sorted_keys and lookup.  Proved: sorted_keys is sorted ascending by the byte-wise order
-   (C07_keys_sorted), it and lookup depend only on the set of members, not on the order of the
-   association list (C07_keys_order_independent, C07_lookup_order_independent); recursive descent
-   visits a container before its descendants, array elements in index order and object members in
-   sorted key order (C07_preorder_array / C07_preorder_object); arrays, unions and multi-name selectors
-   are visited in index / written order by the definition of the specification, which the
-   implementation model refines exactly (C01_refines_spec).
-   NOT proved: the congruence "documents equal up to permutation of every object give results equal
-   up to permutation" through the whole evaluator (it needs user functions to respect the
-   equivalence).  Tie to the code: repeated evaluation on independently built equal maps, interleaved
-   with other maps, against the model. *)
-From JP Require Import Json Eval WF SortFacts EvalInv4.
+   through sorted_keys and lookup.
+   * C07_order_independent: two documents that are the same JSON value built in different member
+     orders (same_doc: the same keys, recursively the same members; C07_same_document_same_canon: they
+     have the same canonical form) give, for every function-free path, the same sequence of results —
+     same length, same order, values equal up to canonical form — on the specification, which the
+     evaluator model refines exactly (C01_refines_spec).  Deep equality, the only operation that looks
+     at whole objects, is shown insensitive to member order (deep_eq_canon).
+   * C07_keys_sorted: members are visited in ascending byte-wise key order; C07_keys_order_independent,
+     C07_lookup_order_independent: that order and member lookup depend only on the set of members;
+     C07_preorder_*: recursive descent visits a container before its descendants, array elements in
+     index order and object members in sorted key order; arrays, unions and multi-name selectors are
+     visited in index / written order by the definition of the specification.
+   Hypotheses: objects have distinct keys at every level (what encoding/json produces); the path has
+   no user function (a user function would have to respect the equivalence itself).
+   Tie to the code: repeated evaluation on independently built equal maps (3 insertion orders,
+   aliased sub-values, interleaved with other maps) against the model. *)
+From JP Require Import Json Eval WF Spec SortFacts EvalInv4 SpecDecode SpecPerm.
 From Coq Require Import Sorting.Permutation Sorting.Sorted.
+Open Scope list_scope.
+
+Theorem C07_order_independent : forall ffun afun regex_match t d1 d2,
+  fun_free t = true -> nd_doc d1 -> nd_doc d2 -> canon d1 = canon d2 ->
+  map cres (sp ffun afun regex_match t d1 (Some [], d1)) = map cres (sp ffun afun regex_match t d2 (Some [], d2)).
+Proof. exact order_independent. Qed.
+Print Assumptions C07_order_independent.
+
+Theorem C07_same_document_same_canon : forall a b, nd_doc a -> same_doc a b -> canon a = canon b.
+Proof. exact same_doc_canon. Qed.
+Print Assumptions C07_same_document_same_canon.
+
+Theorem C07_path_on_canonical_form : forall ffun afun regex_match t doc, fun_free t = true -> nd_doc doc ->
+  sp ffun afun regex_match t (canon doc) (Some [], canon doc) = map cres (sp ffun afun regex_match t doc (Some [], doc)).
+Proof. exact path_canon_invariant. Qed.
+Print Assumptions C07_path_on_canonical_form.
 
 Theorem C07_keys_sorted : forall m, StronglySorted le (sorted_keys m).
 Proof. intros m. apply sort_keys_sorted. Qed.
@@ -27,18 +48,31 @@ Theorem C07_lookup_order_independent : forall m m' k, NoDup (map fst m) -> Permu
 Proof. exact lookup_perm_invariant. Qed.
 Print Assumptions C07_lookup_order_independent.
 
-Theorem C07_preorder_array_partial : forall l xs,
+Theorem C07_preorder_array : forall l xs,
   containers l (VArr xs) =
   (l, VArr xs) :: flat_map (fun iv => containers (ext_loc l (PIdx (fst iv))) (snd iv)) (index_list xs 0).
 Proof. exact containers_arr. Qed.
-Theorem C07_preorder_object_partial : forall l m,
+Theorem C07_preorder_object : forall l m,
   containers l (VObj m) =
   (l, VObj m) :: flat_map (fun k => match lookup m k with
                                     | Some x => containers (ext_loc l (PKey k)) x
                                     | None => []
                                     end) (sorted_keys m).
 Proof. exact containers_obj. Qed.
-Print Assumptions C07_preorder_object_partial.
+Print Assumptions C07_preorder_object.
 
 Example C07_example : sorted_keys [("b", VNull); ("a", VNull); ("B", VNull); ("aa", VNull)]%string = ["B"; "a"; "aa"; "b"]%string.
 Proof. reflexivity. Qed.
+
+(* non-vacuity: two insertion orders of {"b":{"y":1,"x":2},"a":[3]} are the same document *)
+Example C07_same_doc_example :
+  let one := VNum (num_of_Z 1) in let two := VNum (num_of_Z 2) in let three := VNum (num_of_Z 3) in
+  let d1 := VObj [("b", VObj [("y", one); ("x", two)]); ("a", VArr [three])]%string in
+  let d2 := VObj [("a", VArr [three]); ("b", VObj [("x", two); ("y", one)])]%string in
+  nd_doc d1 /\ nd_doc d2 /\ canon d1 = canon d2.
+Proof.
+  cbv zeta. split; [|split].
+  - cbn. repeat constructor; cbn; intuition discriminate.
+  - cbn. repeat constructor; cbn; intuition discriminate.
+  - vm_compute. reflexivity.
+Qed.
